@@ -1,7 +1,7 @@
 (* C10 — lemmas about metrics reads (Scrape.v): the read-only callback is a
    stutter step of the plugin model. *)
 From Coq Require Import List ZArith Bool Lia.
-From Verif Require Import C10.Model C10.Plugin C10.PluginProofs C10.Scrape.
+From Verif Require Import C10.Model C10.Plugin C10.PluginProofs C10.Bridge C10.Scrape.
 Import ListNotations.
 Open Scope Z_scope.
 
@@ -59,3 +59,66 @@ Lemma gauge_total_nonneg : forall s, 0 <= gauge_total s.
 Proof. intro s. apply gauge_sum_nonneg. Qed.
 
 End S.
+
+(* ---- what an accepted case of suite plugin says (the suite evaluates
+   [run_mplugin]: histories with metrics reads) ---- *)
+
+Lemma mexpand_all_strip : forall tbl l macts,
+  mexpand_all tbl l = Some macts ->
+  expand_all tbl (cstrip l) = Some (strip macts).
+Proof.
+  intros tbl l. induction l as [|a t IH]; intros macts H; simpl in H.
+  - inversion H; subst. reflexivity.
+  - destruct a as [a|now].
+    + destruct (expand tbl a) as [x|] eqn:X; [|discriminate].
+      destruct (mexpand_all tbl t) as [r|]; [|discriminate].
+      inversion H; subst. simpl. rewrite X, (IH r eq_refl). reflexivity.
+    + destruct (mexpand_all tbl t) as [r|]; [|discriminate].
+      inversion H; subst. simpl. exact (IH r eq_refl).
+Qed.
+
+Lemma drop_scrapes_incl : forall cs acts x, In x (drop_scrapes acts cs) -> In x cs.
+Proof.
+  induction cs as [|c cs IH]; intros acts x I; [now rewrite drop_scrapes_nil in I|].
+  destruct acts as [|[a|now] rest]; simpl in I.
+  - exact I.
+  - destruct I as [E|I]; [now left|right; eauto].
+  - right. eauto.
+Qed.
+
+Lemma run_mplugin_accepts : forall tbl cacts counts results,
+  Forall obs_ok counts ->
+  run_mplugin (tbl, cacts, counts, results) = None ->
+  exists macts,
+    mexpand_all tbl cacts = Some macts /\
+    expand_all tbl (cstrip cacts) = Some (strip macts) /\
+    penabled code_ttl code_variant pinit (strip macts) = true /\
+    eq_zs (fst (mrun_obs code_ttl code_scrape code_variant pinit macts)) counts = true /\
+    drop_scrapes macts (fst (mrun_obs code_ttl code_scrape code_variant pinit macts)) =
+      pcounts_of code_ttl code_variant pinit (strip macts) /\
+    snd (mrun_obs code_ttl code_scrape code_variant pinit macts) =
+      prun code_ttl code_variant pinit (strip macts) /\
+    mrun code_ttl code_scrape code_variant pinit macts =
+      prun code_ttl code_variant pinit (strip macts) /\
+    eq_press (cverdicts tbl (prun code_ttl code_variant pinit (strip macts)) results)
+             (map snd results) = true.
+Proof.
+  intros tbl cacts counts results F H. unfold run_mplugin in H.
+  destruct (mexpand_all tbl cacts) as [macts|] eqn:X; [|discriminate]. exists macts.
+  split; [reflexivity|]. split; [now apply mexpand_all_strip|].
+  pose proof (mrun_obs_readonly code_ttl code_variant macts pinit) as B.
+  change ReadOnly with code_scrape in B.
+  destruct (mrun_obs code_ttl code_scrape code_variant pinit macts) as [cs sf] eqn:R.
+  cbn [fst snd] in *.
+  match type of H with (if ?b then _ else _) = _ => destruct b eqn:E end; [|discriminate].
+  apply andb_prop in E. destruct E as [E1 E2].
+  assert (En : penabled code_ttl code_variant pinit (strip macts) = true).
+  { destruct (penabled code_ttl code_variant pinit (strip macts)) eqn:En; [reflexivity|exfalso].
+    apply prun_obs_sentinel in En. rewrite B in En. cbn [fst] in En.
+    apply drop_scrapes_incl in En.
+    pose proof (eq_zs_nonneg _ _ E1 F) as NN. rewrite Forall_forall in NN. specialize (NN _ En). lia. }
+  rewrite (prun_obs_enabled code_ttl code_variant (strip macts) _ En) in B.
+  injection B as B1 B2.
+  split; [exact En|]. split; [exact E1|]. split; [symmetry; exact B1|]. split; [symmetry; exact B2|].
+  split; [apply mrun_readonly|]. rewrite B2. exact E2.
+Qed.
